@@ -45,7 +45,8 @@ class List(Expression):
             out += STATUS << True
             return
 
-        LEN = Code('len')
+        # (Don't use the builtin "len": a field or parameter may have that name.)
+        LEN = lambda x: Code(x, '.__len__()')
         staging = out.var('staging', [])
 
         # A maximum that is only known at run time may be zero, so it has to be
